@@ -567,11 +567,11 @@ def g_apply(g, op):
     return (i, o)
 
 
-def canon_child(op, seen):
+def canon_child(op, seen, names_sym=True):
     """may `op` extend a canonical history that has (seen[0]) named slot/fill, (seen[1]) registered K1/K1b? -> new seen or None"""
     o = op[1]
     sn, sk = seen
-    if len(o) > 1 and o[1] in SYM_NAMES:
+    if names_sym and len(o) > 1 and o[1] in SYM_NAMES:
         if not sn and o[1] == SYM_NAMES[1]:
             return None
         sn = True
@@ -585,10 +585,11 @@ def canon_child(op, seen):
 JOBS = []      # filled before the worker pool is forked
 
 
-def make_job(ls, rs, alpha, L, kind, orbit=False, claimed=True, split=None):
-    if orbit:
+def make_job(ls, rs, alpha, L, kind, orbit=False, claimed=True, split=None, names_sym=True):
+    """orbit: one history per orbit of G (names_sym=False: of the subgroup generated by K1<->K1b alone)"""
+    if orbit and names_sym:
         assert orbit_ok(ls, rs), (ls, rs)
-    return {"ls": ls, "rs": rs, "alpha": alpha, "L": L, "kind": kind, "orbit": orbit, "claimed": claimed,
+    return {"ls": ls, "rs": rs, "alpha": alpha, "L": L, "kind": kind, "orbit": orbit, "claimed": claimed, "names_sym": names_sym,
             "split": split if split is not None else max(1, L - 3)}
 
 
@@ -602,11 +603,11 @@ def job_tasks(jid, seed):
             g = (False, False)
             if job["orbit"]:
                 r = random.Random("C15-orbit-%s-%d-%r" % (seed, jid, prefix))
-                g = (r.random() < 0.5, r.random() < 0.5)
+                g = (r.random() < 0.5 and job["names_sym"], r.random() < 0.5)
             out.append((jid, tuple(prefix), seen, g))
             return
         for op in job["alpha"]:
-            s2 = canon_child(op, seen) if job["orbit"] else seen
+            s2 = canon_child(op, seen, job["names_sym"]) if job["orbit"] else seen
             if s2 is not None:
                 rec(prefix + [op], s2)
     rec([], (False, False))
@@ -657,7 +658,7 @@ def walk_task(task, collect_paths=False):
         else:
             cands = alpha
         for cop in cands:
-            s2 = canon_child(cop, seen) if orbit else seen
+            s2 = canon_child(cop, seen, job["names_sym"]) if orbit else seen
             if s2 is None:
                 continue
             op = g_apply(g, cop)
@@ -742,14 +743,15 @@ def tree_jobs(thorough):
              # a protected tag that is NOT in the library (must never be created), next to one that is
              ([(["component", "slot"], "default")], [(0, ("shorthand", "instance"))], ["a", "slot", "provide"])]
     groups.append(("one-extra-exh%d" % Lx, [make_job(ls, rs, alphabet(ns), Lx, "one-extra-exh%d" % Lx) for ls, rs, ns in extra]))
-    # 4. two registries on two private libraries: all interleavings
+    # 4. two registries on two private libraries: all interleavings of length 3; length 4: over 2 names, one per orbit of K1<->K1b
+    #    (quick) / over 3 names, one per orbit of G, both configurations (thorough)
     alpha2 = alphabet(NAMES3, 2)
-    L2 = 3
-    groups.append(("two-private-exh%d" % L2, [make_job(ls, rs, alpha2, L2, "two-private-exh%d" % L2) for ls, rs in TWO]))
-    groups.append(("two-private-orbit4", [make_job(ls, rs, alpha2, 4, "two-private-orbit4", orbit=True) for ls, rs in
-                                          (TWO if thorough else TWO[:1])]))
+    groups.append(("two-private-exh3", [make_job(ls, rs, alpha2, 3, "two-private-exh3") for ls, rs in TWO]))
     if thorough:
-        groups.append(("two-private-2names-exh4", [make_job(TWO[1][0], TWO[1][1], alphabet(["a", "slot"], 2), 4, "two-private-2names-exh4")]))
+        groups.append(("two-private-orbit4", [make_job(ls, rs, alpha2, 4, "two-private-orbit4", orbit=True) for ls, rs in TWO]))
+    else:
+        groups.append(("two-private-2names-orbit4", [make_job(TWO[0][0], TWO[0][1], alphabet(["a", "slot"], 2), 4, "two-private-2names-orbit4",
+                                                              orbit=True, names_sym=False)]))
     # 5. OUTSIDE the claimed domain (diagnostic only): two registries sharing one library
     groups.append(("two-shared-diagnostic", [make_job(SHARED[0], SHARED[1], alphabet(["a", "slot"], 2), 3, "two-shared-diagnostic", claimed=False)]))
     return groups
@@ -1085,7 +1087,7 @@ def run(tier, seed):
     return chk.finish(
         rule="Calls = {register x 3 names (a, slot, fill) x 3 classes (K0; K1 and K1b = two class objects with ONE _class_hash), unregister, get} "
              "+ clear + all = 17 per registry. One registry, default / shorthand formatter x Library without / with mark_protected_tags (4 "
-             "configurations): (i) ALL histories of length %d (17^%d each; every shorter history is an observed prefix); (ii) length %d: ONE history "
+             "configurations): (i) ALL histories of length %d (17^%d each; every shorter history is an observed prefix); (ii) length %d, %s: ONE history "
              "per ORBIT of the group G (order 4) generated by the renamings slot<->fill (both pre-existing tags of the Library, both protected or "
              "both not, treated alike by both formatters - checked per configuration) and K1<->K1b: statement, configuration and model are "
              "invariant under G; the canonical histories (first call naming slot/fill names slot, first registration of K1/K1b registers K1) are "
@@ -1094,14 +1096,16 @@ def run(tier, seed):
              "members of an orbit apart is NOT assumed up to length %d, where all of them are run. 8 further configurations (custom protected "
              "list, user-defined formatter, empty library, invalid ComponentFormatter tag, keyword / non-ASCII / non-word names, tag == name "
              "colliding with an unprotected pre-existing tag next to a protected one, protected tag absent from the library): all histories of length %d. Two registries on two private "
-             "libraries, 34 calls: all interleavings of length 3 (2 configurations), one per orbit of length 4 (%s)%s. Histories are produced and "
+             "libraries, 34 calls: all interleavings of length 3 (2 configurations); length 4: %s. Histories are produced and "
              "compared as trees (a node = one call + result + all() of every registry + tag table of every library; theorem "
              "tree_check_is_per_history_check). Seeded random histories of 7..40 calls over 1-3 registries, 31 names (invalid, newline, protected, "
              "prefixed, keywords, code points >= 128) and 8 formatters. evaluations = maximal histories (+ corpus, + tag strings). "
              "Non-trivial = a tag was added to and removed from library.tags and (an exception was raised or two registered names shared a "
              "tag). Distinct = distinct (configuration, history)."
-             % (Lf, Lf, Lo, Lf, 4 if thorough else 3, "both configurations" if thorough else "1 configuration",
-                "" if thorough else ", all interleavings of length 4 over 2 names (24 calls)"),
+             % (Lf, Lf, Lo, "shorthand+protected and default+unprotected" if thorough else "shorthand formatter + protected tags only",
+                Lf, 4 if thorough else 3,
+                "one interleaving per orbit of G over the 34 calls, both configurations" if thorough else
+                "over 2 names (a, slot; 24 calls), one interleaving per orbit of K1<->K1b, 1 configuration"),
         explanation="theorems of Props/C15.v re-checked by coqc; after EVERY call the result, all() of every registry and the tag table of every "
                     "Library (incl. whether each pre-existing tag still is the original function) are compared with an independent dict "
                     "reference + tag-iff-used / protected-untouched predicates (direct oracle; classes compared by _class_hash) and with the Coq "
